@@ -18,10 +18,11 @@ Lemma step_releases_nothing others ci o : is_make_mut o = false ->
   (exists e1, cells (ci_chain ci') = cells (ci_chain ci) ++ e1) /\
   (exists e2, cells (ci_helper ci') = cells (ci_helper ci) ++ e2).
 Proof.
-  intros H. destruct o as [ty v|ty v| |ty v| |]; try discriminate; cbn.
+  intros H. destruct o as [ty v|ty v| |ty v| | |]; try discriminate; cbn.
   - repeat split; try reflexivity; [exists [(ty, v)]; reflexivity|exists []; now rewrite app_nil_r].
   - repeat split; try reflexivity; exists []; now rewrite app_nil_r.
   - repeat split; try reflexivity; [exists []; now rewrite app_nil_r|exists [(ty, v)]; reflexivity].
+  - repeat split; try reflexivity; exists []; now rewrite app_nil_r.
   - repeat split; try reflexivity; exists []; now rewrite app_nil_r.
   - repeat split; try reflexivity; exists []; now rewrite app_nil_r.
 Qed.
@@ -36,7 +37,7 @@ Lemma step_helper_never_released others ci o :
   released (ci_helper (fst (cop_step others ci o))) = released (ci_helper ci)
   /\ exists e, cells (ci_helper (fst (cop_step others ci o))) = cells (ci_helper ci) ++ e.
 Proof.
-  destruct o as [ty v|ty v| |ty v| |]; cbn; split; try reflexivity;
+  destruct o as [ty v|ty v| |ty v| | |]; cbn; split; try reflexivity;
     try (exists []; now rewrite app_nil_r). exists [(ty, v)]. reflexivity.
 Qed.
 
@@ -65,7 +66,7 @@ Qed.
 (* every held reference points at a value that is still in a chain, after any operation sequence *)
 Lemma step_held_alive others ci o : held_alive ci -> held_alive (fst (cop_step others ci o)).
 Proof.
-  unfold held_alive. intros H. destruct o as [ty v|ty v| |ty v| |]; cbn.
+  unfold held_alive. intros H. destruct o as [ty v|ty v| |ty v| | |]; cbn.
   - intros x Hx. apply in_app_or in Hx. destruct Hx as [Hx|[<-|[]]].
     + apply H in Hx. apply in_app_or in Hx. destruct Hx as [Hx|Hx]; apply in_or_app; [left|right]; [|exact Hx].
       apply in_or_app. left. exact Hx.
@@ -76,6 +77,7 @@ Proof.
     + apply H in Hx. apply in_app_or in Hx. destruct Hx as [Hx|Hx]; apply in_or_app; [left; exact Hx|right].
       apply in_or_app. left. exact Hx.
     + apply in_or_app. right. apply in_or_app. right. left. reflexivity.
+  - intros x [].
   - intros x [].
   - intros x [].
 Qed.
